@@ -18,12 +18,29 @@ def classes():
 _ATTRS = ("_state", "_global_value", "_global_float_value", "_global_double_value", "_global_half_value")
 
 
+def _plain(v):
+    try:
+        import torch
+
+        if torch.is_tensor(v):
+            return ("tensor", tuple(v.shape))
+    except Exception:  # noqa: BLE001
+        pass
+    return v
+
+
 def snapshot():
+    """every piece of process-global state a settings class owns: the documented slots (_ATTRS) and any other plain class attribute
+    (e.g. the probe-vector cache of deterministic_probes)"""
     snap = {}
     for name, c in classes():
-        for a in _ATTRS:
-            if a in c.__dict__:
-                snap[f"{name}.{a}"] = c.__dict__[a]
+        for a, v in c.__dict__.items():
+            if a in _ATTRS:
+                snap[f"{name}.{a}"] = v
+            elif not a.startswith("__") and a != "_default":
+                pv = _plain(v)
+                if pv is None or isinstance(pv, (bool, int, float, str, tuple)):
+                    snap[f"{name}.{a}"] = pv
     return snap
 
 
